@@ -306,6 +306,8 @@ def run(tier, replay):
         # the limits as configured reach the limiters: real dserver and the serverless connector (free-running, judged from the output)
         wiring_runs = e2e.stage_limits(wd, V, rng, tier)
         log("limit wiring: %d client runs (serverless and over SSH) with MaxConcurrentCats below the number of files" % wiring_runs)
+        sched_runs = e2e.stage_scheduled(wd, V)
+        log("scheduled job holding the only cat slot (named pipe) against a dcat session: %d run" % sched_runs)
         # the slots of a session come back when its connection ends, whatever was done on it (real server, bare SSH client)
         wov = {"internal/server/vcommon_test.go": ("common/vcommon_test.go", "server"),
                "internal/server/c14_test.go": "server/c14_test.go", "internal/server/c13_wire_test.go": "server/c13_wire_test.go"}
@@ -320,7 +322,7 @@ def run(tier, replay):
             elif w.get("problem"):
                 V.diverge("wire case %s could not be run: %s" % (w["case"], w["problem"]))
         log("session endings over SSH (MaxConcurrentTails = 1): %s" % ", ".join("%s:%s" % (w["case"], "bad" if w.get("bad") else "problem" if w.get("problem") else "ok") for w in wire))
-        cov = {"limit_wiring_runs": wiring_runs, "session_endings_over_ssh": wire,
+        cov = {"limit_wiring_runs": wiring_runs, "scheduled_job_runs": sched_runs, "session_endings_over_ssh": wire,
             "states": states, "transitions": transitions,
             "traces_validated_against_impl": validated,
             "traces_accepted_by_strict_model": len(accepted_strict),
